@@ -27,6 +27,7 @@ func runC09(c *mon.Ctx) {
 			c09BucketRace(c, r.Fork(77), 8)
 			c09SecondLife(c, r.Fork(78))
 			c09DeriveStorm(c, r.Fork(79))
+			c09DeriveVsClose(c, r.Fork(80))
 		})
 	}
 }
@@ -472,6 +473,17 @@ func c09BucketRace(c *mon.Ctx, r *mon.Rand, iters int) {
 		root, _ := vNewRoot(opts, 0, uint(r.Range(0, 4)))
 		G := r.Range(2, 6)
 		desc := map[string]interface{}{"cached": cached, "goroutines": G, "what": "first use of histograms with colliding bucket sets on sibling scopes of a fresh root"}
+		// every other root: somebody asked for a histogram with a caller-defined
+		// Buckets type first and recovered from the library's refusal (a panic);
+		// the first uses that follow must go through all the same
+		if it%2 == 1 {
+			func() {
+				defer func() { recover() }()
+				root.SubScope("custom").Histogram("h", c20Units{1, 2, 3})
+			}()
+			desc["after_a_recovered_request_with_a_caller_defined_buckets_type"] = true
+		}
+		stopW := c.Watchdog(90*time.Second, "first-use-of-a-histogram-does-not-return", desc)
 		var wg sync.WaitGroup
 		var ready int32
 		for g := 0; g < G; g++ {
@@ -489,6 +501,7 @@ func c09BucketRace(c *mon.Ctx, r *mon.Rand, iters int) {
 			}(g)
 		}
 		wg.Wait()
+		stopW()
 		tally.VerifReportPass(root)
 		log, _, _ := rec.Snapshot()
 		seen := make([]bool, G)
@@ -778,4 +791,54 @@ func c09DeriveStorm(c *mon.Ctx, r *mon.Rand) {
 		}
 	}
 	c.Event("storm-derivations", int64(G*M*2))
+}
+
+// c09DeriveVsClose: 2-6 goroutines keep making the first request for fresh
+// children with wide tag maps (building the key of each takes a while) while
+// the root is closed at a PRNG-chosen moment. Whatever each request returns,
+// all of them return, and so does Close.
+func c09DeriveVsClose(c *mon.Ctx, r *mon.Rand) {
+	pr := mon.NewPlainRec(false)
+	interval := time.Duration(0)
+	if r.Bool() {
+		interval = time.Duration(r.Range(200, 2000)) * time.Microsecond
+	}
+	root, closer := vNewRoot(tally.ScopeOptions{Reporter: pr, OmitCardinalityMetrics: true}, interval, uint(r.Range(0, 4)))
+	G := r.Range(2, 6)
+	width := r.Range(100, 600)
+	base := make(map[string]string, width)
+	for k := 0; k < width; k++ {
+		base[fmt.Sprintf("key%04d", k)] = "v"
+	}
+	desc := map[string]interface{}{"goroutines": G, "tag_map_width": width, "interval_us": interval.Microseconds()}
+	stopW := c.Watchdog(120*time.Second, "close-or-first-request-does-not-return", desc)
+	defer stopW()
+	var stop int32
+	var wg sync.WaitGroup
+	var derived int64
+	for g := 0; g < G; g++ {
+		wg.Add(1)
+		go func(g int) {
+			defer wg.Done()
+			tags := make(map[string]string, width+1)
+			for k, v := range base {
+				tags[k] = v
+			}
+			c.Guard("panic-derive-during-close", func() interface{} { return desc }, func() {
+				for i := 0; i < 400 && (atomic.LoadInt32(&stop) == 0 || i%8 != 0); i++ {
+					tags["fresh"] = fmt.Sprintf("%d-%d", g, i)
+					root.Tagged(tags)
+					atomic.AddInt64(&derived, 1)
+				}
+			})
+		}(g)
+	}
+	time.Sleep(time.Duration(r.Range(100, 3000)) * time.Microsecond)
+	closer.Close()
+	atomic.StoreInt32(&stop, 1)
+	wg.Wait()
+	// and once more afterwards: a closed root still answers
+	root.Tagged(map[string]string{"after": "close"})
+	root.SubScope("after")
+	c.Event("first-requests-racing-a-root-close", atomic.LoadInt64(&derived))
 }
